@@ -21,6 +21,7 @@ fn main() {
             ("C15", 1) => vharness::checks_misc::c15_soup_case,
             ("C13", 1) | ("C13", 2) => vharness::checks_conc::c13_case,
             ("C14", 1) => vharness::checks_conc::c14_case,
+            ("C14", 2) => vharness::checks_conc::c14_churn_case,
             ("C11", 3) => vharness::checks_scale::c11_huge_case,
             _ => usage(),
         };
@@ -141,6 +142,10 @@ fn replay(path: &str) -> i32 {
                 ("C11", 3) => vharness::checks_scale::c11_huge_case(&mut rng, index, &mut st),
                 #[cfg(feature = "hooks")]
                 ("C01", 6) => vharness::checks_scale::c01_long_case(&mut rng, &mut st),
+                #[cfg(feature = "hooks")]
+                ("C04", 3) => vharness::checks_scale::long_lookahead_case(&mut rng, &mut st, true),
+                #[cfg(feature = "hooks")]
+                ("C05", 3) => vharness::checks_scale::long_lookahead_case(&mut rng, &mut st, false),
                 ("C10", 1) => vharness::checks_hist::c10_case(&mut rng, &mut st),
                 ("C11", 1) => vharness::checks_hist::c11_case(&mut rng, &mut st),
                 ("C12", 1) => vharness::checks_hist::c12_case(&mut rng, &mut st),
@@ -150,6 +155,7 @@ fn replay(path: &str) -> i32 {
                     let progress = std::sync::atomic::AtomicU64::new(0);
                     vharness::checks_conc::c14_round(&mut rng, index, &mut st, &progress)
                 }
+                ("C14", 2) => vharness::checks_conc::c14_churn_case(&mut rng, index, &mut st),
                 ("C15", 1) => vharness::checks_misc::c15_soup_case(&mut rng, index, &mut st),
                 ("C15", 2) => vharness::checks_misc::c15_planted_case(&mut rng, index, &mut st),
                 ("C15", 3) => vharness::checks_misc::c15_supported_case(&mut rng, index, &mut st),
